@@ -63,7 +63,7 @@ def run(R):
                           "environment, address) is order-insensitive by loop shape or listed with a who-may-call constraint")
     R.rule("C18.consumer", "no randomly seeded hash container is handed to an iterator-consuming std API")
     R.rule("C18.callers", "functions whose result carries hash order are called only from the listed non-output callers")
-    R.rule("C18.indirect", "no dyn / fn-pointer call in the analysed crate (assumption of the call graph)")
+    R.rule("C18.indirect", "every fn-pointer call resolves, by address-taken analysis over the coercions to that pointer type, to a closed set of functions of this crate (assumption of the call graph)")
     R.rule("C18.fieldtypes", "container types of the fields whose traversal is output order (reported)")
 
     R.rule("C18.process-state", "no process-wide mutable state (a static holding a Mutex / RwLock / RefCell / Cell / atomic, or a thread-local) "
@@ -121,8 +121,15 @@ def run(R):
                         src = sname
                         break
             if c.func.get("indirect"):
-                R.violation("C18.indirect", "%s|indirect-call" % f.spath,
-                            "indirect (dyn / fn pointer) call: the call graph assumption does not hold", [c.loc()])
+                tg = P.fnptr_callees(f, c)
+                if tg is None:
+                    R.violation("C18.indirect", "%s|indirect-call" % f.spath,
+                                "call through a `%s` whose possible targets are not a closed set of functions of this crate (nothing of that "
+                                "pointer type is created from a local fn item or closure, or a non-local function / transmute is coerced to it): "
+                                "the call graph assumption does not hold" % c.func.get("ty", "?"), [c.loc()])
+                else:
+                    R.ok("C18.indirect", "%s|indirect-call" % f.spath, "call through `%s` resolved by address-taken analysis to %s"
+                         % (c.func.get("ty"), ", ".join(P.fns[k].spath for k in tg)), c.loc())
                 continue
             if kind is None:
                 # consumer of a hash container by value/ref through an iterator-consuming trait
